@@ -91,11 +91,40 @@ get32(const uint8_t *p)
 // a message as a JSON object: header words (if any, 4-byte aligned) and the body tag.
 // body: 4 bytes = tag; otherwise "len" is reported and tag = first 4 bytes (or 0)
 static int symw;
+static int dev_mode; // "proto device <kind>": sut = replier-side raw socket, sut2 = requester-side raw socket, nng_device between
+static void
+sym_word(uint32_t w, int first)
+{
+	// device mode: words as ["p",slot] (id of the pipe in that slot), ["i",n] (top bit set) or ["h",n]
+	for (int s = 1; s < VT_MAXSLOTS; s++) {
+		if (w != 0 && vt_pipe_id(s) == w) {
+			o("%s[\"p\",%d]", first ? "" : ",", s);
+			return;
+		}
+	}
+	o("%s[\"%s\",%u]", first ? "" : ",", (w & 0x80000000u) ? "i" : "h", w & 0x7fffffffu);
+}
 static void
 msg_json(nng_msg *m)
 {
 	size_t   hl = nng_msg_header_len(m), bl = nng_msg_len(m);
 	uint8_t *h = nng_msg_header(m), *b = nng_msg_body(m);
+	if (dev_mode) {
+		o("{\"hdr\":[");
+		for (size_t i = 0; i + 4 <= hl; i += 4) {
+			sym_word(get32(h + i), i == 0);
+		}
+		o("],\"body\":[");
+		for (size_t i = 0; i + 4 <= bl; i += 4) {
+			sym_word(get32(b + i), i == 0);
+		}
+		o("]");
+		if (hl % 4 || bl % 4) {
+			o(",\"ragged\":true");
+		}
+		o("}");
+		return;
+	}
 	o("{\"hdr\":[");
 	for (size_t i = 0; i + 4 <= hl; i += 4) {
 		uint32_t w = get32(h + i);
@@ -372,7 +401,7 @@ obs_json(void)
 		}
 	}
 	o("]");
-	if (sut_open) {
+	if (sut_open && !dev_mode) {
 		if ((rv = nng_socket_get_send_poll_fd(sut, &fd)) == 0) {
 			struct pollfd pf = { fd, POLLIN, 0 };
 			poll(&pf, 1, 0);
@@ -387,6 +416,10 @@ obs_json(void)
 	o("}");
 }
 
+static nng_socket sut2;
+static int        sut2_open;
+static uint16_t   peer_proto2;
+static nng_aio   *dev_aio;
 static long walk = -1;
 static int  step;
 static int  quiet_cmd; // the current command came with a leading '!': configuration, no result line
@@ -407,6 +440,22 @@ static struct {
 	uint32_t tag, id;
 } idtab[256];
 static int nidtab;
+// Ids are allocated consecutively, one per send call: a peer that has seen one id can predict the id of a request
+// that was allocated but never written (cancelled or superseded while it waited for a pipe).
+static uint32_t sendtab[256];
+static int      nsendtab;
+static int      id_base_known;
+static uint32_t id_base;
+static int
+send_index(uint32_t tag)
+{
+	for (int i = 0; i < nsendtab; i++) {
+		if (sendtab[i] == tag) {
+			return i;
+		}
+	}
+	return -1;
+}
 static uint32_t
 id_of_tag(uint32_t tag)
 {
@@ -414,6 +463,9 @@ id_of_tag(uint32_t tag)
 		if (idtab[i].tag == tag) {
 			return idtab[i].id;
 		}
+	}
+	if (id_base_known && send_index(tag) >= 0) {
+		return id_base + (uint32_t) send_index(tag);
 	}
 	return 0;
 }
@@ -438,6 +490,10 @@ note_id(uint32_t tag, uint32_t id)
 		idtab[nidtab].tag = tag;
 		idtab[nidtab].id  = id;
 		nidtab++;
+	}
+	if (!id_base_known && send_index(tag) >= 0) {
+		id_base_known = 1;
+		id_base       = id - (uint32_t) send_index(tag);
 	}
 	return "id";
 }
@@ -541,6 +597,8 @@ main(int argc, char **argv)
 			memset(dying, 0, sizeof(dying));
 			memset(ctx_open_, 0, sizeof(ctx_open_));
 			nidtab   = 0;
+			nsendtab = 0;
+			id_base_known = 0;
 			auto_run = 0;
 			vt_reset();
 			live0 = acct_live_blocks();
@@ -558,10 +616,23 @@ main(int argc, char **argv)
 				}
 			}
 			dee_run_all(10000);
+			if (dev_aio != NULL) {
+				// cancelling its aio is the only way to end a device; it then closes both sockets itself
+				nng_aio_cancel(dev_aio);
+				dee_run_all(10000);
+				nng_aio_wait(dev_aio);
+				nng_aio_free(dev_aio);
+				dev_aio = NULL;
+			}
 			if (sut_open) {
 				nng_socket_close(sut);
 				sut_open = 0;
 			}
+			if (sut2_open) {
+				nng_socket_close(sut2);
+				sut2_open = 0;
+			}
+			dev_mode = 0;
 			dee_run_all(10000);
 			for (int i = 1; i <= MAXOPS; i++) {
 				if (ops[i].used) {
@@ -599,6 +670,27 @@ main(int argc, char **argv)
 			int          rv;
 			nng_listener l;
 			snprintf(proto_name, sizeof(proto_name), "%s", a1);
+			if (!strcmp(a1, "device")) {
+				// proto device reqrep|survey: sut (irc://sut) faces the requesters/surveyors, sut2 (irc://sut2) the repliers
+				int surv = !strcmp(a2, "survey");
+				dev_mode   = 1;
+				raw_mode   = 1;
+				peer_proto = surv ? NNI_PROTO(6, 2) : NNI_PROTO(3, 0);
+				peer_proto2 = surv ? NNI_PROTO(6, 3) : NNI_PROTO(3, 1);
+				if ((rv = (surv ? nng_respondent0_open_raw(&sut) : nng_rep0_open_raw(&sut))) != 0 ||
+				    (rv = (surv ? nng_surveyor0_open_raw(&sut2) : nng_req0_open_raw(&sut2))) != 0) {
+					return 3;
+				}
+				sut_open = sut2_open = 1;
+				nng_pipe_notify(sut, NNG_PIPE_EV_REM_POST, pipe_event, NULL);
+				nng_pipe_notify(sut2, NNG_PIPE_EV_REM_POST, pipe_event, NULL);
+				if ((rv = nng_listener_create(&l, sut, "irc://sut")) != 0 || (rv = nng_listener_start(l, 0)) != 0 ||
+				    (rv = nng_listener_create(&l, sut2, "irc://sut2")) != 0 || (rv = nng_listener_start(l, 0)) != 0) {
+					fprintf(stderr, "driver: listen: %s\n", nng_strerror(rv));
+					return 3;
+				}
+				continue; // the device starts with the first connection: a socket owned by a device refuses options
+			}
 			raw_mode   = atoi(a2);
 			peer_proto = proto_id(peer_of(a1));
 			if ((rv = open_proto(a1, raw_mode, &sut)) != 0) {
@@ -616,7 +708,18 @@ main(int argc, char **argv)
 		o("{");
 		if (!strcmp(cmd, "connect")) {
 			int s = atoi(a1);
-			int r = vt_connect("sut", n > 2 ? (uint16_t) strtoul(a2, NULL, 0) : peer_proto, s);
+			int r;
+			if (dev_mode && dev_aio == NULL) {
+				nng_aio_alloc(&dev_aio, NULL, NULL);
+				nng_device_aio(dev_aio, sut, sut2);
+				quiesce();
+			}
+			if (dev_mode && !strcmp(a2, "R")) {
+				r = vt_connect("sut2", peer_proto2, s);
+			} else if (dev_mode) {
+				r = vt_connect("sut", peer_proto, s);
+			} else
+				r = vt_connect("sut", n > 2 ? (uint16_t) strtoul(a2, NULL, 0) : peer_proto, s);
 			o("\"out\":{\"rv\":\"%s\"},", r == s ? "ok" : "none");
 		} else if (!strcmp(cmd, "run")) {
 			// run <role> <id>
@@ -651,6 +754,9 @@ main(int argc, char **argv)
 			int   id     = atoi(a1);
 			int   nb     = !strcmp(a2, "nb");
 			int   c      = atoi(issend ? a4 : a3);
+			if (issend && nsendtab < 256) {
+				sendtab[nsendtab++] = (uint32_t) strtoul(a3, NULL, 0);
+			}
 			if (nb) {
 				// the synchronous non-blocking form: completes (or fails) before it returns
 				nng_msg *m = NULL;
@@ -767,7 +873,10 @@ main(int argc, char **argv)
 			nng_msg_alloc(&m, 0);
 			while (h != NULL) {
 				uint32_t w;
-				if (h[2] == 'i') {
+				if (h[2] == 'p') {
+					int sl = atoi(h + 3);
+					w      = (sl > 0 && sl < VT_MAXSLOTS && vt_pipe_id(sl) != 0) ? vt_pipe_id(sl) : 0x7ffffff0u;
+				} else if (h[2] == 'i') {
 					w = 0x80000000u | (uint32_t) strtoul(h + 3, NULL, 0);
 				} else if (h[2] == 'r') {
 					w = id_of_tag((uint32_t) strtoul(h + 3, NULL, 0));
